@@ -33,7 +33,7 @@ LEVEL_NOTE = ("Trusted: VTerm's kitty placement semantics (placements survive ov
               "deletes by z / at cursor / all, ED 2 drops them, Konsole drops fully covered "
               "placements), urwid's own incremental redraw (real code, not under test).")
 TIERS = {
-    "quick": {"runs": 1600, "max_ops": 22},
+    "quick": {"runs": 6000, "max_ops": 22},
     "thorough": {"runs": 40000, "max_ops": 25, "wall_cap": 1500},
 }
 RULE = ("history = terminal identity + screen size <= 60x30 + pool of <= 6 widgets + <= max_ops "
@@ -43,7 +43,8 @@ PROBES = ["image_moved_between_redraws", "image_disappeared", "bare_non_composit
           "overlay_covers_image", "list_scrolled", "widget_collected_z_index_reused",
           "stop_start_cycle", "clear_images_now", "konsole_iterm2_image", "resize",
           "ghost_free_redraws", "returned_to_earlier_layout",
-          "kitty_style_by_forced_support"]
+          "kitty_style_by_forced_support", "grid_row_redivided",
+          "kitty_widget_spec_with_z_index_field"]
 COMPONENTS = {
     "real": ["UrwidImageScreen (draw_screen, clear, clear_images, _start, _stop, "
              "_ti_clear_images)", "UrwidImage / UrwidImageCanvas", "KittyImage / ITerm2Image / "
@@ -126,6 +127,11 @@ def run(ch, ctx, fault=None):
                 col = ((37 * serial[0]) % 256, (91 * serial[0]) % 256, 60)
                 im = cls(Image.new("RGB", (pw, ph), col))
                 spec = ch.pick("spec", ("", "<", ">", ".^", "._", "<.^"))
+                if style == "kitty" and ch.bool("zspec", 0.3):
+                    # a z-index field in the widget's format spec is documented as ignored:
+                    # the screen manages the z-indexes of its image widgets itself
+                    spec += ch.pick("zfield", ("+z7", "+z7", "+z-3", "+z0"))
+                    ctx.probe("kitty_widget_spec_with_z_index_field")
                 if style == "iterm2":
                     ctx.probe("konsole_iterm2_image")
                 # applications subclass the widget; the z-index allocator is shared by all
@@ -145,11 +151,55 @@ def run(ch, ctx, fault=None):
         for _ in range(ch.int("n_pool", 1, 4)):
             pool.append(new_widget())
 
+        # a quarter of the worlds are spreadsheet-like applications: grids only, rows re-divided
+        # between redraws (horizontal moves by whole cells under rows of uneven height)
+        grid_focus = [ch.bool("grid_focus", 0.25)]
+
+        def gen_grid_row(unit_cols, flow):
+            """cells of a grid row: (span in units, content); content = pool index of a flow
+            widget, ("tall", n lines) or ("pile", n one-line texts)"""
+            cells, left = [], unit_cols
+            while left > 0:
+                span = min(left, ch.pick("span", (1, 1, 1, 2)))
+                ck = ch.weighted("cell", [(4, "widget"), (3, "tall"), (2, "pile"), (1, "line")])
+                if ck == "widget" and flow:
+                    content = ch.pick("cw_", flow)
+                elif ck == "tall":
+                    content = ("tall", ch.int("tl", 2, 3))
+                elif ck == "pile":
+                    content = ("pile", ch.int("pl", 2, 3))
+                else:
+                    content = ("tall", 1)
+                cells.append((span, content))
+                left -= span
+            return cells
+
         def gen_layout():
             kinds = [(4, "pile"), (3, "columns"), (3, "overlay"), (3, "list"), (1, "frame"),
-                     (2, "bare")]
+                     (2, "bare"), (7, "grid")]
             kind = ch.weighted("lkind", kinds)
+            if grid_focus[0]:
+                kind = "grid"
             idxs = list(range(len(pool)))
+            if kind == "grid":
+                # rows of equal-width cells (some spanning two): canvases of different heights
+                # side by side, images aligned with cell boundaries of the rows above
+                flow = [i for i in idxs if pool[i]["kind"] in ("image", "text", "divider")]
+                unit = ch.pick("unit", (4, 6, 8))
+                ucols = ch.int("ucols", 2, 4)
+                rows_ = [gen_grid_row(ucols, flow) for _ in range(ch.int("grows", 2, 3))]
+                if ch.bool("stairs", 0.65):
+                    # a short stack next to taller cells: the row's first shard ends while the
+                    # canvases to its right still span further lines
+                    rows_[0] = [(1, ("pile", ch.int("pl", 2, 3)))] + \
+                        [(1, ("tall", ch.int("tl", 2, 3))) for _ in range(ucols - 1)]
+                imgs_ = [i for i in flow if pool[i]["kind"] == "image"]
+                if imgs_ and not any(isinstance(c, int) and c in imgs_
+                                     for row in rows_[1:] for _, c in row):
+                    row = rows_[-1]
+                    j = ch.int("imgcell", 0, len(row) - 1)
+                    row[j] = (row[j][0], ch.pick("gimg", imgs_))
+                return {"kind": "grid", "unit": unit, "ucols": ucols, "rows": rows_}
             if kind == "bare":
                 box = [i for i in idxs if pool[i]["kind"] in ("image", "fill")]
                 if not box:
@@ -192,6 +242,28 @@ def run(ch, ctx, fault=None):
             kind = layout["kind"]
             if kind == "bare":
                 return pool[layout["w"]]["w"]
+            if kind == "grid":
+                seen = set()
+                rows_w = []
+                for ri, cells in enumerate(layout["rows"]):
+                    cols_w = []
+                    for ci, (span, content) in enumerate(cells):
+                        if isinstance(content, int):
+                            if content >= len(pool) or content in seen or \
+                                    pool[content]["kind"] == "fill":
+                                wdg = urwid.Text("r%dc%d" % (ri, ci))
+                            else:
+                                seen.add(content)
+                                wdg = pool[content]["w"]
+                        elif content[0] == "tall":
+                            wdg = urwid.Text("\n".join("t%d%d.%d" % (ri, ci, j)
+                                                       for j in range(content[1])))
+                        else:
+                            wdg = urwid.Pile([urwid.Text("p%d%d.%d" % (ri, ci, j))
+                                              for j in range(content[1])])
+                        cols_w.append((span * layout["unit"], wdg))
+                    rows_w.append(urwid.Columns(cols_w))
+                return urwid.Filler(urwid.Pile(rows_w), "top")
             if kind == "pile":
                 seen = set()
                 items = []
@@ -318,11 +390,17 @@ def run(ch, ctx, fault=None):
             # explicit clear_images() is generated at most once between two redraws (the
             # disguise state is modulo 3: three calls without a redraw wrap it, as the
             # library's own comments note)
-            op = ch.weighted("op", [
-                (10, "draw"), (3, "create"), (2, "drop"), (5, "layout"), (3, "scroll"),
-                (3, "move_overlay"), (2, "resize"), (1, "clear"), (2, "clear_images"),
-                (1, "stop_start"),
-            ])
+            if grid_focus[0]:
+                op = ch.weighted("op", [
+                    (10, "draw"), (1, "create"), (1, "drop"), (1, "layout"), (10, "grid_edit"),
+                    (1, "resize"), (1, "clear_images"),
+                ])
+            else:
+                op = ch.weighted("op", [
+                    (10, "draw"), (3, "create"), (2, "drop"), (5, "layout"), (3, "scroll"),
+                    (6, "grid_edit"), (3, "move_overlay"), (2, "resize"), (1, "clear"),
+                    (2, "clear_images"), (1, "stop_start"),
+                ])
             desc = op
             if op == "draw":
                 top = build(layout)
@@ -403,6 +481,27 @@ def run(ch, ctx, fault=None):
                 gc.collect()
                 if z is not None:
                     ctx.probe("widget_collected_z_index_reused")
+            elif op == "grid_edit":
+                # one row of a grid is re-divided (cells merged / split): whatever sits in it
+                # moves horizontally by whole cells while the rows above stay as they are
+                if layout["kind"] != "grid":
+                    continue
+                flow = [i for i in range(len(pool)) if pool[i]["kind"] in ("image", "text",
+                                                                          "divider")]
+                ri = ch.int("grow", 1, len(layout["rows"]) - 1) if ch.bool("lower", 0.8) else 0
+                old = layout["rows"][ri]
+                keep = [c for _, c in old if isinstance(c, int)]
+                new = gen_grid_row(layout["ucols"], flow)
+                # keep the row's widgets (in order) so that they move rather than vanish
+                slots = [j for j, (_, c) in enumerate(new) if not isinstance(c, int)]
+                if keep and slots:
+                    # the kept widgets land in seeded cells (not always the leftmost ones)
+                    start = ch.int("kslot", 0, max(0, len(slots) - len(keep)))
+                    for j, c in zip(slots[start:], keep):
+                        new[j] = (new[j][0], c)
+                layout["rows"][ri] = new
+                desc = "grid row %d -> %r" % (ri, new)
+                ctx.probe("grid_row_redivided")
             elif op == "layout":
                 if earlier and ch.bool("back", 0.3):
                     # back to an earlier layout (close a dialog, switch tabs and back): the
